@@ -82,8 +82,8 @@ claimed = {
    note="Runs as root. Flips never land between check and start of one execution (inherent check-then-exec window). The walk is OS-level attribute enumeration; only c18loop runs under the simulator.",
    tech="attribute-space enumeration with side-effect marker oracle + deterministic simulation with permission-flip events"),
  "C19": dict(cat="fault_enumeration", ref="§3/C19",
-   text="Two enumerated fault spaces: (a) under the simulator, every command fault of the C09 list (start failures: not executable, bad format, vanished between permission check and start; exit codes; killed; garbage/nan/empty output; injected timeout) in every backend/curve combination with cmd components - no panic, the loop continues or the fan is restored; (b) on the REAL clock, util.SafeCmdExecution against 16 misbehaving-command modes x 4 timeouts (sleepers, SIGTERM-ignoring, grandchildren holding stdout, huge output, stderr flood, start failures) - returns within timeout + 1.5 s with the trimmed output or an error, never panics; plus sampled real-clock families: several hanging and quick invocations of ONE executable at the same time (rt.c19conc) and 14-24 calls one after the other in one process (rt.c19seq: nothing may accumulate from call to call).",
-   note="Part (b) is fault injection against the real kernel without simulation: a simulated deadline cannot fire while a real child runs, and replacing exec by a model would remove the mechanism under test (stated in DESIGN.md). Margin 1.5 s, 16 cases in parallel. quick covers all 64 real-time cases and a window of (a).",
+   text="Two enumerated fault spaces: (a) under the simulator, every command fault of the C09 list (start failures: not executable, bad format, vanished between permission check and start; exit codes; killed; garbage/nan/empty output; injected timeout) in every backend/curve combination with cmd components - no panic, the loop continues or the fan is restored; (b) on the REAL clock, util.SafeCmdExecution against 18 misbehaving-command modes x 4 timeouts (sleepers, SIGTERM-ignoring, grandchildren holding stdout, huge output, stderr flood, start failures, executables that cannot even be examined: path through a regular file, symbolic link to itself) - returns within timeout + 1.5 s with the trimmed output or an error, never panics; plus sampled real-clock families: several hanging and quick invocations of ONE executable at the same time (rt.c19conc) and 14-24 calls one after the other in one process (rt.c19seq: nothing may accumulate from call to call).",
+   note="Part (b) is fault injection against the real kernel without simulation: a simulated deadline cannot fire while a real child runs, and replacing exec by a model would remove the mechanism under test (stated in DESIGN.md). Margin 1.5 s, 16 cases in parallel. quick covers all 72 real-time cases and a window of (a).",
    tech="enumerated fault injection: in-simulation command faults + real-clock timing of the real exec path"),
  "C20": dict(cat="exploration", ref="§3/C20",
    text="Race-instrumented (-race) L1 worlds: several fans of all backends sharing one sensor, one linear curve, a PID curve and a function curve, all loops at 20-100 ms periods, REST clients (list and item endpoints via echo.ServeHTTP) and a metrics client (Prometheus Gather over the real collectors) at seeded instants, in virtual time. Two modes: a serialised seeded schedule whose hand-offs are invisible to the detector (the only visible edge is parker -> kernel through a large buffered channel; the release is under runtime.RaceDisable), and a free-running mode for true simultaneity. Reports are normalised to the unordered pair of owners of the racing state; 16 owner pairs are listed as known findings with their call sites, any other pair is a violation.",
